@@ -197,5 +197,52 @@ theorem write_buffer_ok_flush (restore : Bool) (F : Oracle) (w : World) (b : WB)
         rw [put_ok hp, NMap.get_insert]
         simp
 
+/-! ## what C12 needs from `ObjectStore::put`, and what `LocalFsObjectStore::put` gives
+
+The crash-consistency theorems quantify over oracles with `crash` (the call had no effect) and
+`crashPartial` / `failPartial` (an object every parser rejects is left under the target name, an
+older object under that name is gone).  `LocalFsObjectStore::put` writes in place
+(`tokio::fs::write`: create + truncate, then `write_all`), so it is NOT atomic — but every
+intermediate file content is a proper prefix of the object, and the formats reject every proper
+prefix (checked exhaustively on real segments / checkpoints / manifests by harness/src/c12x.rs):
+its crash images are exactly those three. -/
+
+/-- every file content during the write is a prefix of the object's bytes -/
+theorem localfs_put_content_is_prefix (data lens : List Nat) (k : Nat) (c : List Nat)
+    (h : fsAfter data lens k = some c) : ∃ n, c = data.take n := by
+  cases k with
+  | zero => simp [fsAfter] at h
+  | succ k => simp only [fsAfter, Option.some.injEq] at h; exact ⟨_, h.symm⟩
+
+/-- **the crash images of the in-place write are those of the model's `put`**: for a format whose
+    reader rejects every proper prefix of an encoding, after any number of file-level steps a
+    reader of the final name sees the old object (`crash`), nothing it accepts (`crashPartial`:
+    torn), or the complete new object -/
+theorem localfs_put_crash_images (parse : List Nat → Option Obj) (data : List Nat) (o : Obj)
+    (hfull : parse data = some o) (hpre : ∀ n, n < data.length → parse (data.take n) = none)
+    (old : Option (List Nat)) (lens : List Nat) (k : Nat) :
+    (fsVisible old data lens k).bind parse = old.bind parse ∨
+    (fsVisible old data lens k).bind parse = none ∨
+    (fsVisible old data lens k).bind parse = some o := by
+  unfold fsVisible
+  cases hk : fsAfter data lens k with
+  | none => exact Or.inl rfl
+  | some c =>
+    obtain ⟨n, hn⟩ := localfs_put_content_is_prefix data lens k c hk
+    subst hn
+    by_cases hlt : n < data.length
+    · exact Or.inr (Or.inl (by simp [hpre n hlt]))
+    · right; right
+      have : data.take n = data := List.take_of_length_le (by omega)
+      simp [this, hfull]
+
+/-- … and it is not atomic: an older complete object under the name is destroyed by a `put` that
+    never completes (first step = truncate) — the model's `crashPartial` / `failPartial` -/
+theorem localfs_put_not_atomic :
+    ∃ (parse : List Nat → Option Obj) (data lens : List Nat) (old : List Nat) (k : Nat),
+      parse old ≠ none ∧ (fsVisible (some old) data lens k).bind parse = none := by
+  refine ⟨fun b => if b = [7] then some .torn else if b = [1, 2] then some (.segment []) else none,
+    [1, 2], [1, 1], [7], 1, by decide, by decide⟩
+
 end C12
 end RedisVerif
